@@ -486,6 +486,87 @@ def r11_6(rep: Report) -> None:
                      f'i and i+16{tag}', fn)
 
 
+def r11_7(rep: Report) -> None:
+    """WRMHEADER context (PlayReady.generate_wrmheader): the values rendered for the default key -
+    default_kid, default_key, checksum - all come from the one key selected by `default_kid`, and each
+    entry of the per-key list pairs kid and checksum of the same key.  Decided on the terms the
+    function builds (sa/termeval.py): anything else - e.g. a local left over from the loop - shows
+    up as a different term."""
+    from ..termeval import Opaque, Path, TermEval, class_consts
+    rid = 'R11.7'
+    tree = rep.repo.tree(PR)
+    cls = need(find_class(tree, 'PlayReady'), 'PlayReady')
+    fn = need(find_func(cls, 'generate_wrmheader'), 'PlayReady.generate_wrmheader')
+    c = f'{PR}::PlayReady.generate_wrmheader'
+    ev = TermEval(class_consts(cls))
+    seen: list[dict] = []
+
+    def observe(call: ast.Call, env: dict) -> None:
+        if (call_name(call) or '').split('.')[-1] != 'render_template':
+            return
+        ctx: dict = {}
+        for k in call.keywords:
+            if k.arg is None:
+                v = ev.eval(k.value, env)
+                if not isinstance(v, dict):
+                    raise AnalysisError('generate_wrmheader: template context is not a dict display')
+                ctx.update(v)
+            else:
+                ctx[k.arg] = ev.eval(k.value, env)
+        seen.append(dict(ctx))
+    ev.observe = observe
+    ev.run(fn, {})
+    ev.observe = None
+    if not seen:
+        raise AnalysisError('generate_wrmheader: render_template(...) not reached')
+
+    def text(v) -> str:
+        return v.text if isinstance(v, Opaque) else repr(v)
+    for ctx in seen:
+        if ctx.get('?unknown'):
+            raise AnalysisError('generate_wrmheader: the template context is updated in a way that is not evaluated')
+        ck, dk, dkey = text(ctx.get('checksum')), text(ctx.get('default_kid')), text(ctx.get('default_key'))
+        m = re.fullmatch(r'self\.generate_checksum\((.+)\)', ck)
+        key_term = m.group(1) if m else None
+        ok = bool(m) and dkey == f'{key_term}.KEY.raw' and f'{key_term}.KID.raw' in dk \
+            and re.fullmatch(r'keys\[\w+\.lower\(\)\]', key_term or '') is not None
+        if ok:
+            rep.ok(rid, c, 'default kid / key / checksum from one key', f'key = {key_term}')
+        else:
+            rep.fail(rid, c, 'default kid / key / checksum from one key',
+                     f'the header is rendered with checksum = {ck[:60]}, default_key = {dkey[:50]}, default_kid = '
+                     f'{dk[:60]}: the three must be computed from the key selected by default_kid '
+                     '(a CHECKSUM of another key beside the default KID makes the header unusable)', fn)
+    # per-key entries
+    loops = [n for n in ast.walk(fn) if isinstance(n, ast.For) and 'keys' in norm(n.iter)
+             and isinstance(n.target, ast.Name)]
+    if not loops:
+        raise AnalysisError('generate_wrmheader: loop over the key set not found')
+    n_items = 0
+    for loop in loops:
+        lists = {x.func.value.id for x in ast.walk(loop) if isinstance(x, ast.Call) and isinstance(x.func, ast.Attribute)
+                 and x.func.attr == 'append' and isinstance(x.func.value, ast.Name)}
+        env = {name: [] for name in lists}
+        env[loop.target.id] = Opaque(loop.target.id)
+        paths = TermEval(class_consts(cls))._block(loop.body, [Path(env=env)])
+        for p_ in paths:
+            for name in lists:
+                for item in p_.env.get(name, []):
+                    if not (isinstance(item, dict) and 'kid' in item and 'checksum' in item):
+                        continue
+                    n_items += 1
+                    kid, ck = text(item['kid']), text(item['checksum'])
+                    v = loop.target.id
+                    if ck == f'self.generate_checksum({v})' and f'{v}.KID.raw' in kid:
+                        rep.ok(rid, c, 'per-key entry pairs kid and checksum')
+                    else:
+                        rep.fail(rid, c, 'per-key entry pairs kid and checksum',
+                                 f'a KID entry is built with kid = {kid[:60]} and checksum = {ck[:60]}: not the kid '
+                                 f'and checksum of the same key `{v}`', loop)
+    if not n_items:
+        raise AnalysisError('generate_wrmheader: per-key entries (kid, checksum) not found')
+
+
 def analyse(rep: Report) -> None:
     rep.explanation = (
         'Structural side of C11: location gating of each DRM system, agreement of the two '
@@ -500,9 +581,11 @@ def analyse(rep: Report) -> None:
     rep.rule('R11.4', 'ClearKey endpoint returns only looked-up keys; decode errors handled', floor=5)
     rep.rule('R11.5', 'GUID byte order equals RFC 4122 bytes_le', floor=3)
     rep.rule('R11.6', 'PlayReady key-seed algorithm: hash input sequences, truncation and XOR fold', floor=6)
+    rep.rule('R11.7', 'WRMHEADER: default kid, key and checksum come from one key; entries pair kid and checksum', floor=2)
     location_gating(rep, 'R11.1')
     r11_2(rep)
     r11_3(rep)
     r11_4(rep)
     r11_5(rep)
     r11_6(rep)
+    r11_7(rep)
